@@ -2080,7 +2080,12 @@ ws_listener_set(
 
 	rv = nni_setopt(ws_listener_options, name, l, buf, sz, t);
 	if (rv == NNG_ENOTSUP) {
-		rv = nni_http_server_set(l->server, name, buf, sz, t);
+		// the server is gone once the listener has been stopped
+		nni_mtx_lock(&l->mtx);
+		if (l->server != NULL) {
+			rv = nni_http_server_set(l->server, name, buf, sz, t);
+		}
+		nni_mtx_unlock(&l->mtx);
 	}
 
 	if (rv == NNG_ENOTSUP) {
@@ -2100,7 +2105,12 @@ ws_listener_get(
 
 	rv = nni_getopt(ws_listener_options, name, l, buf, szp, t);
 	if (rv == NNG_ENOTSUP) {
-		rv = nni_http_server_get(l->server, name, buf, szp, t);
+		// the server is gone once the listener has been stopped
+		nni_mtx_lock(&l->mtx);
+		if (l->server != NULL) {
+			rv = nni_http_server_get(l->server, name, buf, szp, t);
+		}
+		nni_mtx_unlock(&l->mtx);
 	}
 	return (rv);
 }
